@@ -190,7 +190,7 @@ def relerr(a, b):
     return float(d / scale) if scale > 0 else float('inf')
 
 
-def require_close(a, b, tol, what, rec=None, atol=0.0, **sig):
+def require_close(a, b, tol, what, rec=None, atol=0.0, key=None, **sig):
     """Violation unless max|a-b| <= tol*max|b| + atol."""
     import numpy as np
     a = np.asarray(a, dtype=float)
@@ -213,7 +213,7 @@ def require_close(a, b, tol, what, rec=None, atol=0.0, **sig):
     d = diff.max()
     e = d / scale if scale > 0 else (0.0 if d == 0 else float('inf'))
     if rec is not None:
-        rec.err(what, e if d > atol else 0.0)
+        rec.err(key or what, e if d > atol else 0.0)
     if d > tol * scale + atol:
         idx = int(np.argmax(diff))
         raise Violation('%s: max abs diff %.3e (rel %.3e > tol %.1e) at flat index %d: got %r expected %r'
